@@ -63,9 +63,9 @@ func c15Names(maxLen int) []string {
 }
 
 func c15Gen(g *core.Gen) {
-	maxLen := 3
+	maxLen := 4
 	if g.Thorough() {
-		maxLen = 4
+		maxLen = 5
 	}
 	names := c15Names(maxLen)
 	diskNames := c15Names(2)
@@ -77,7 +77,7 @@ func c15Gen(g *core.Gen) {
 		for _, n := range names {
 			for pos := 0; pos < 2; pos++ {
 				g.Emit(&c15Case{Fmt: f, Name: n, Pos: pos})
-				if diskSet[n] || (g.Thorough() && len(n) < 9) {
+				if diskSet[n] || len(n) < 9 || (g.Thorough() && len(n) < 12) {
 					g.Emit(&c15Case{Fmt: f, Name: n, Pos: pos, Disk: true})
 				}
 			}
@@ -331,7 +331,7 @@ func init() {
 	core.Register(&core.Prop{
 		ID:    "C15",
 		Level: "model_checking",
-		Rule: "bounded-exhaustive declared names: every path built from components {a, .., ., empty, a.., ..a} of length 1-3 (thorough 1-4), each with/without a leading and a trailing slash, plus backslash, NUL, drive-letter, UNC and long-traversal spellings and absolute paths into a canary tree; in each position of a 2-file set; PAR1 and PAR2 archives written by the reference writers as fully repairable sets whose declared files are missing; real Verify and Repair. All names run on the recording in-memory filesystem; names of length<=2 (thorough: all short names) additionally on a real directory with a canary tree (byte snapshot of everything around the archive directory before/after). PAR2 Create with inputs outside the index directory in 10 spellings. " +
+		Rule: "bounded-exhaustive declared names: every path built from components {a, .., ., empty, a.., ..a} of length 1-4 (thorough 1-5), each with/without a leading and a trailing slash, plus backslash, NUL, drive-letter, UNC and long-traversal spellings and absolute paths into a canary tree; in each position of a 2-file set; PAR1 and PAR2 archives written by the reference writers as fully repairable sets whose declared files are missing; real Verify and Repair. All names run on the recording in-memory filesystem; names shorter than 9 characters (thorough: 12) additionally on a real directory with a canary tree (byte snapshot of everything around the archive directory before/after). PAR2 Create with inputs outside the index directory in 10 spellings. " +
 			"Oracle: every write path, cleaned, lies inside the index directory tree (PAR1: directly in it); nothing outside changes or appears; Create refuses. non-trivial = every case (each declares a hostile or boundary name)",
 		Assumptions: []string{"reads outside the directory are counted in evidence but are not an alarm (the statement constrains create/modify/delete)", "Linux path semantics: backslash is an ordinary character"},
 		NewCase:     func() interface{} { return &c15Case{} },
